@@ -133,6 +133,9 @@ impl R2ROperator<Triple, Vec<PhysicalOperator>, Vec<(String, String)>> for Simpl
     }
 
     fn add(&mut self, data: Triple) {
+        // A triple that arrives as window content is no longer "derived": keep it out of the
+        // eviction list, otherwise the next materialize() deletes a raw item of the current window.
+        self.derived_triples.retain(|derived| derived != &data);
         self.item.add_triple(data);
     }
 
